@@ -946,4 +946,106 @@ example : freshImage (.kymo 2) (regWave 1 2 1 2 2) ⟨0, [9, 1, 2, 3, 4, 9, 5, 6
   decide
 example := fresh_after_repair 2 1 2 1 1 0 (by decide) [9, 1, 2, 3, 4, 9, 5, 6, 7, 8, 9] rfl
 
+/-! ## 10. Deepening round D: the property's sentence in index form; `Scan.shape` and the image; side conditions -/
+
+/-- Pixel `j` is the sum of the photon counts of EXACTLY the samples the info wave assigns to it: the samples that
+    are not flagged discard and have `j` pixel boundaries before them - and 0 when pixel `j` is not completed
+    (fewer than `j + 1` boundaries).  All lengths, any samples per pixel, any dead time, any discarded counts. -/
+theorem pixel_is_assigned_samples (data : List Int) (iw : List Nat) (h : data.length = iw.length) (j : Nat) :
+    (pixelsSpec data iw).getD j 0 = assignedSum data iw j := by
+  have := spec_getD_assigned iw data 0 j h
+  unfold pixelsSpec
+  rw [this]
+  simp
+
+example : (pixelsSpec [9, 1, 2, 7, 3, 4, 5] [0, 1, 2, 0, 1, 2, 1]).getD 1 0 = 7 ∧
+    assignedSum [9, 1, 2, 7, 3, 4, 5] [0, 1, 2, 0, 1, 2, 1] 1 = 7 := by decide
+example := pixel_is_assigned_samples [9, 1, 2, 7, 3, 4, 5] [0, 1, 2, 0, 1, 2, 1] rfl 1
+
+/-- ... and it sits where the scan-axis metadata says: kymograph entry (row `r`, column `ℓ`) of a full-length
+    channel is the total of the samples assigned to pixel `ℓ·P + r`. -/
+theorem kymo_entry_is_assigned (P : Nat) (hP : 0 < P) (iw : List Nat) (chan : List Int)
+    (h : chan.length = iw.length) (r ℓ : Nat) (hr : r < P) :
+    at2 (kymoImage P (pixelsSpec chan iw)) r ℓ = assignedSum chan iw (ℓ * P + r) := by
+  rw [kymo_placement P hP _ r ℓ hr, pixel_is_assigned_samples chan iw h]
+
+example := kymo_entry_is_assigned 2 (by decide) [0, 1, 2, 2, 0, 1, 2] [9, 1, 2, 3, 9, 4, 5] rfl 0 1 (by decide)
+
+/-- the same for a scan, in either axis order -/
+theorem scan_entry_is_assigned (L P : Nat) (hL : 0 < L) (hP : 0 < P) (iw : List Nat) (chan : List Int)
+    (h : chan.length = iw.length) (f l p : Nat) (hl : l < L) (hp : p < P) :
+    at3 (scanFrames L P false (pixelsSpec chan iw)) f l p = assignedSum chan iw ((f * L + l) * P + p) ∧
+    at3 (scanFrames L P true (pixelsSpec chan iw)) f p l = assignedSum chan iw ((f * L + l) * P + p) := by
+  rw [scan_placement_fast_lower L P hL hP _ f l p hl hp, scan_placement_fast_higher L P hL hP _ f l p hl hp,
+    pixel_is_assigned_samples chan iw h]
+  exact ⟨rfl, rfl⟩
+
+example := scan_entry_is_assigned 2 2 (by decide) (by decide) [1, 2, 2, 0, 2, 2, 2] [1, 2, 3, 9, 4, 5, 6] rfl 1 0 0
+  (by decide) (by decide)
+
+/-- `Scan.shape` (metadata + `num_frames` reconstructed from the info wave) is the shape of the image
+    `Scan.get_image(colour)` returns, plus the colour axis — for every colour that is absent or reaches the end of
+    the info wave. -/
+theorem scan_shape_matches_image (fa P sa L : Nat) (hax : fa ≠ sa) (hP : 2 ≤ P) (hL : 2 ≤ L) (iw : List Nat)
+    (chan : List Int) (hc : chan.length = 0 ∨ iw.length ≤ chan.length) (im : Image)
+    (h : scanGetImage [(fa, P), (sa, L)] iw chan = .ok im) :
+    scanShape [(fa, P), (sa, L)] 0 iw = im.shape ++ [3] := by
+  rw [scan_get_image_any fa P sa L hax hP hL] at h
+  cases hs : colourPixelsSpec iw chan with
+  | none => rw [hs] at h; cases h
+  | some px =>
+    rw [hs] at h
+    cases h
+    obtain ⟨hlen, hne⟩ := colour_pixels_count iw chan px hs
+    have hcount : px.length = iw.count 2 := by
+      rcases hc with h0 | hge
+      · rw [hlen, if_pos h0]
+      · have h0 : chan.length ≠ 0 := by
+          intro h0
+          have : iw = [] := List.length_eq_zero_iff.mp (by omega)
+          rw [if_pos h0, this] at hlen
+          simp at hlen; subst hlen; exact hne rfl
+        rw [hlen, if_neg h0, map_snd_zip_min, Nat.min_eq_right hge, List.take_length]
+    have hLP : 0 < L * P := Nat.mul_pos (by omega) (by omega)
+    obtain ⟨m1, m2, _, m4⟩ := scan_axes_meta fa P sa L hax
+    unfold scanShape
+    simp only [m1, m2, m4, numFrames, if_true, reconstructNumFrames, ← hcount, Nat.mul_comm P L]
+    have hF := ceil_div_spec px.length (L * P) hLP
+    generalize (px.length + L * P - 1) / (L * P) = F at hF ⊢
+    have hF1 : 1 ≤ F := by
+      cases F with
+      | zero => have := hF.1; simp only [Nat.zero_mul] at this; omega
+      | succ F => omega
+    by_cases h1 : F = 1
+    · subst h1
+      by_cases hlt : fa < sa
+      · have : ¬ sa < fa := by omega
+        simp [hlt, this]
+      · have : sa < fa := by omega
+        simp [hlt, this]
+    · have hgt : F > 1 := by omega
+      by_cases hlt : fa < sa
+      · have : ¬ sa < fa := by omega
+        simp [hlt, this, h1, hgt]
+      · have : sa < fa := by omega
+        simp [hlt, this, h1, hgt]
+
+example : scanShape [(1, 2), (0, 2)] 0 [1, 2, 2, 0, 2, 2, 2] = [2, 2, 2, 3] := by decide
+example := scan_shape_matches_image 1 2 0 2 (by decide) (by decide) (by decide) [1, 2, 2, 0, 2, 2, 2]
+  [1, 2, 3, 9, 4, 5, 6] (Or.inr (by decide)) ⟨[2, 2, 2], [3, 4, 3, 5, 6, 0, 0, 0]⟩ (by decide)
+
+/-- The hypothesis is needed: a colour that ends before the last frame gives a smaller image than `Scan.shape` says. -/
+example : scanShape [(0, 2), (1, 2)] 0 [2, 2, 2, 2, 2] = [2, 2, 2, 3] ∧
+    scanGetImage [(0, 2), (1, 2)] [2, 2, 2, 2, 2] [1, 1, 1] = .ok ⟨[2, 2], [1, 1, 1, 0]⟩ := by decide
+
+/-! kernel-checked witnesses: the side conditions of the placement / metadata theorems are needed -/
+-- `scan_axes_meta` needs two DISTINCT physical axes (`sorted` is stable: equal axis numbers keep the scan order)
+example : numPixels [(1, 5), (1, 7)] = [5, 7] ∧ ¬ ((1 : Nat) < 1) := by decide
+-- `kymo_placement` needs `r < P`: outside the image the entry is 0, whatever the pixel list holds there
+example : at2 (kymoImage 2 [10, 11, 12, 13]) 2 0 = 0 ∧ [10, 11, 12, 13].getD (0 * 2 + 2) 0 = 12 := by decide
+-- `scan_placement_fast_lower` needs `p < P`
+example : at3 (scanFrames 2 2 false [1, 2, 3, 4]) 0 0 2 = 0 ∧ [1, 2, 3, 4].getD ((0 * 2 + 0) * 2 + 2) 0 = 3 := by decide
+-- `image_total_kymo` needs `0 < P`
+example : (kymoImage 0 [1, 2]).flatten.sum = 0 := by decide
+
 end Verif.C02
